@@ -23,7 +23,7 @@ static const std::int32_t MINV = INT32_MIN;   // MIN_RAM_SIGNED: the "unbound" m
 
 // ---- cheap reset of a relation between cases ---------------------------------------------------------------------------
 // A fresh relation allocates 512 KB + 256 KB on its first insert, which costs milliseconds per case under ASan. Cases with
-// fresh=0 therefore re-use two static relations whose element counters are rewound (blocks stay allocated, every node block
+// fresh=0 therefore re-use two static relations whose element counters are rewound (first blocks allocated, every node block
 // and every dense->sparse entry is re-initialised on creation); cases with fresh=1 construct new objects.
 // DisjointSet and SparseDisjointSet befriend every EquivalenceRelation<T>; `sds` itself is reached through the
 // explicit-instantiation access idiom.
@@ -53,6 +53,14 @@ public:
 static void rewindRelation(ER& r) {
     souffle::EquivalenceRelation<C28Tag>::rewind(r.*robGet(SdsTag()));
     r.emptyPartition();
+}
+// canonical start state of a re-used relation: first blocks allocated, no elements. Without this the hook sequence of a case
+// would depend on whether the previous case ended with clear() (which frees the blocks), and a replay in a new process would
+// not meet the same schedule.
+static void warmRelation(ER& r) {
+    rewindRelation(r);
+    r.insert(0, 0);
+    rewindRelation(r);
 }
 
 // ---- case ------------------------------------------------------------------------------------------------------------
@@ -429,8 +437,8 @@ static Result runEqrel(const Case& c, vsched::ChoiceSource* overrideSrc) {
         A = fa.get();
         B = fb.get();
     } else {
-        rewindRelation(*SA);
-        rewindRelation(*SB);
+        warmRelation(*SA);
+        warmRelation(*SB);
         A = SA;
         B = SB;
     }
